@@ -668,6 +668,21 @@ func (ev *EvalCtx) evalCall(e *Expr) (SVal, error) {
 		}
 		v := Val{T: a[0].T, S: a[0].S}
 		return SVal{T: c.mkSlice(a[0].S, "(store "+c.slArr(v)+" "+plus(c.slOff(v), c.slLen(v))+" "+a[1].T+")", c.slOff(v), "(+ "+c.slLen(v)+" 1)"), S: a[0].S, GT: a[0].GT}, nil
+	case "as":
+		// as(x, pkg.Type): view an interface value as *pkg.Type (for field access); no check implied
+		x, err := ev.eval(e.Args[0])
+		if err != nil {
+			return SVal{}, err
+		}
+		te, err := parseTypeString(e.Args[1].String())
+		if err != nil {
+			return SVal{}, err
+		}
+		_, gt := c.eng.resolveType(ev.pkg, te)
+		if gt == nil {
+			return SVal{}, fmt.Errorf("as: unknown type %s", e.Args[1].String())
+		}
+		return SVal{T: x.T, S: "Int", GT: types.NewPointer(gt)}, nil
 	case "typeis":
 		// typeis(x, pkg.Type) : dynamic type of x is *pkg.Type
 		x, err := ev.eval(e.Args[0])
